@@ -7,6 +7,7 @@ from .. import paths
 from ..core import FUNC, call_attr, calls_in, const, dotted, is_const, kwarg, norm, text, walk_local
 
 EXPLANATION = [
+    'C06.address-equality: Address.__eq__ compares exactly the address bytes and the public / random kind (is_public), so identity-typed and device-typed forms of one address are equal where the controller matches pending connections against advertisers.',
     'C06.pdu-carriers: the link-layer PDU classes of bumble.ll are plain carriers: none of their methods assigns a field (no __post_init__ normalisation), so advertising and data payloads reach the peer controller as built.',
     'C06.match-arms: in the match statements of the anchored modules no class arm comes after an arm for one of its base classes (class patterns are isinstance tests in order: the later arm would never run).',
     'C06.derived-index: a controller / host / device / link table that is filled with objects taken out of another table of the same class (a lookup cache) loses its entry in every method that removes an entry from the source table.',
@@ -371,7 +372,26 @@ def pdu_carriers(ctx):
     R.check(n >= 8, rule, 'bumble.ll | PDU classes', f'{n} classes', f'only {n} classes found')
 
 
+def address_equality(ctx, rule='C06.address-equality'):
+    """Two Address objects are the same address when the bytes agree and both are public or both are random: an identity
+    address (types 2 / 3, what a host with a resolving list names) equals the device address (types 0 / 1) an advertiser
+    uses.  The virtual controller matches a pending connection against advertisers with `==`."""
+    R, p = ctx.r, ctx.p
+    fn = p.find('bumble.hci.Address.__eq__')
+    if fn is None:
+        R.bad(rule, 'bumble.hci.Address.__eq__', 'anchor missing')
+        return
+    cmp_attrs = set()
+    for c in [x for x in ast.walk(fn) if isinstance(x, ast.Compare) and len(x.ops) == 1 and isinstance(x.ops[0], ast.Eq)]:
+        l, r = c.left, c.comparators[0]
+        if isinstance(l, ast.Attribute) and isinstance(r, ast.Attribute) and l.attr == r.attr and {dotted(l.value), dotted(r.value)} == {'self', fn.args.args[1].arg}:
+            cmp_attrs.add(l.attr)
+    R.check(cmp_attrs == {'address_bytes', 'is_public'}, rule, 'bumble.hci.Address.__eq__', 'compares the bytes and the public / random kind',
+            f'Address equality compares {sorted(cmp_attrs)}: an identity-typed address no longer equals the same device-typed address, so a pending connection towards it never matches the advertiser and is never concluded', p.loc(fn))
+
+
 RULES = [
+    ('C06.address-equality', address_equality),
     ('C06.pdu-carriers', pdu_carriers),
     ('C06.match-arms', match_arms_rule),
     ('C06.derived-index', derived_index_rule),
